@@ -314,6 +314,14 @@ func (r *Run) Finish() {
 	cov["distinct_nontrivial"] = len(r.nontrivial)
 	cov["rule"] = r.rule
 	samples := r.samples
+	if len(samples) == 0 {
+		// a run that ended early (violations) may not have reached its sampling points: show the witnesses instead
+		for _, sig := range r.violOrder {
+			if len(samples) < 3 {
+				samples = append(samples, map[string]interface{}{"violating_case": sig, "what": r.viols[sig].What})
+			}
+		}
+	}
 	if samples == nil {
 		samples = []interface{}{}
 	}
